@@ -182,8 +182,8 @@ def selftest() -> int:
 
 
 def replay(case) -> int:
-    print("replay C16:", case.get("detail"))
-    return 1
+    from .common import replay_state
+    return replay_state(judge_state, case, "C16")
 
 
 def run(tier: str, seed: int) -> int:
